@@ -83,6 +83,7 @@ func init() {
 	Properties["C01"] = &PropertySpec{
 		Modules: bt,
 		Rules: []Rule{
+			R82(),
 			R57(),
 			Only(R53(), `^a/`),
 			R52(),
@@ -179,6 +180,7 @@ func init() {
 	Properties["C06"] = &PropertySpec{
 		Modules: bt,
 		Rules: []Rule{
+			R82(),
 			R36(),
 			Only(R59(), `^c/`),
 			Only(R58(), `^d/`),
@@ -302,6 +304,7 @@ func init() {
 	Properties["C13"] = &PropertySpec{
 		Modules: bt,
 		Rules: []Rule{
+			R82(),
 			Only(R58(), `^d/`),
 			Only(R02R03(), fns(rpcMutateRow, rpcMutateRows, rpcCAM, rpcRMW)),
 			Only(R28(), `^c/`),
